@@ -50,7 +50,7 @@ Qed.
 (* ------------------------------------------------------------ parent() *)
 Theorem parent_spec_fx : forall fx t cache o, wf_table t = true -> alive_b t o = true ->
   cache_fresh_b t cache = true ->
-  parent fx t cache o = Val (spec_parent t (o_pid o) (o_ident o)).
+  parent fx t [] cache o = Val (spec_parent t (o_pid o) (o_ident o)).
 Proof.
   intros fx t cache o W A F. destruct (fresh_lowest t cache o A F) as [r [Lr Rr]].
   destruct (alive_facts t o A) as [R [C [e [L S]]]].
@@ -72,7 +72,7 @@ Qed.
 
 Theorem parent_spec : forall t cache o, wf_table t = true -> alive_b t o = true ->
   cache_fresh_b t cache = true ->
-  parent as_is t cache o = Val (spec_parent t (o_pid o) (o_ident o)).
+  parent as_is t [] cache o = Val (spec_parent t (o_pid o) (o_ident o)).
 Proof. exact (parent_spec_fx as_is). Qed.
 
 Definition tab15 : table := [ {| kp_pid := 1; kp_ppid := 0; kp_start := 1 |};
@@ -81,23 +81,23 @@ Definition o5' : pobj := {| o_pid := 5; o_ident := 10; o_ctime := None |}.
 
 Theorem parent_stale_cache_refuted :
   exists t cache o, wf_table t = true /\ alive_b t o = true /\
-    spec_parent t (o_pid o) (o_ident o) = Some (1, 1) /\ parent as_is t cache o = Val None.
+    spec_parent t (o_pid o) (o_ident o) = Some (1, 1) /\ parent as_is t [] cache o = Val None.
 Proof. exists tab15, (Some 5), o5'. repeat split; vm_compute; reflexivity. Qed.
 
 Example parent_spec_hyps :
   wf_table tab15 = true /\ alive_b tab15 o5' = true /\ cache_fresh_b tab15 (Some 1) = true /\
-  cache_fresh_b tab15 None = true /\ parent as_is tab15 None o5' = Val (Some (1, 1)).
+  cache_fresh_b tab15 None = true /\ parent as_is tab15 [] None o5' = Val (Some (1, 1)).
 Proof. repeat split; vm_compute; reflexivity. Qed.
 
 (* recycled caller: NoSuchProcess, whatever the table and the cache hold *)
 Theorem parent_recycled : forall t cache o, recycled_b t o = true ->
-  parent as_is t cache o = Exc NoSuchProcess.
+  parent as_is t [] cache o = Exc NoSuchProcess.
 Proof.
   intros t cache o H. unfold parent. cbn [fx_parent_reuse as_is]. rewrite (recycled_raises t o H). reflexivity.
 Qed.
 
 Theorem parents_recycled : forall t cache o fuel, recycled_b t o = true ->
-  parents as_is fuel t cache o = Exc NoSuchProcess.
+  parents as_is fuel t [] [] cache o = Exc NoSuchProcess.
 Proof. intros t cache o fuel H. unfold parents. rewrite (parent_recycled t cache o H). reflexivity. Qed.
 
 Definition tab1r : table := [ {| kp_pid := 1; kp_ppid := 0; kp_start := 20 |};
@@ -107,7 +107,7 @@ Definition o1r : pobj := {| o_pid := 1; o_ident := 10; o_ctime := None |}.
 (* the code before repair 3959fba: the recycled lowest PID got None / [] *)
 Theorem parent_recycled_old_refuted :
   exists t o, wf_table t = true /\ recycled_b t o = true /\
-    parent before_fixes t None o = Val None /\ parents before_fixes 3 t None o = Val (Some []).
+    parent before_fixes t [] None o = Val None /\ parents before_fixes 3 t [] [] None o = Val (Some []).
 Proof. exists tab1r, o1r. repeat split; vm_compute; reflexivity. Qed.
 
 (* ------------------------------------------------------------ parents() *)
@@ -131,21 +131,26 @@ Lemma spec_parent_of_eq : forall t q sq e, lookup t q = Some e -> kp_start e = s
   spec_parent_of t q = option_map fst (spec_parent t q sq).
 Proof. intros t q sq e L S. unfold spec_parent_of. rewrite L, S. reflexivity. Qed.
 
-Lemma loop_none : forall fx t c fuel seen acc, parents_loop fx t c fuel seen None acc = Val (Some acc).
+Lemma loop_none : forall fx t g gb c fuel seen acc, parents_loop fx t g gb c fuel seen None acc = Val (Some acc).
 Proof. intros. destruct fuel; reflexivity. Qed.
 
-Lemma loop_seen : forall fx t c fuel seen q sq acc, fx_parents_seen fx = true -> memz q seen = true ->
-  parents_loop fx t c fuel seen (Some (q, sq)) acc = Val (Some acc).
-Proof. intros fx t c fuel seen q sq acc F M. destruct fuel; cbn [parents_loop fst]; rewrite F, M; reflexivity. Qed.
+Lemma loop_seen : forall fx t g gb c fuel seen q sq acc, fx_parents_seen fx = true -> memz q seen = true ->
+  parents_loop fx t g gb c fuel seen (Some (q, sq)) acc = Val (Some acc).
+Proof. intros fx t g gb c fuel seen q sq acc F M. destruct fuel; cbn [parents_loop fst]; rewrite F, M; reflexivity. Qed.
 
-Lemma loop_unfold : forall fx t c f seen q sq acc, (fx_parents_seen fx && memz q seen) = false ->
-  parents_loop fx t c (S f) seen (Some (q, sq)) acc =
-  (do nxt <- parent fx t c (obj_of (q, sq)); parents_loop fx t c f (q :: seen) nxt (acc ++ [q])).
-Proof. intros fx t c f seen q sq acc G. cbn [parents_loop fst]. rewrite G. reflexivity. Qed.
+Lemma loop_unfold : forall fx t g gb c f seen q sq acc, (fx_parents_seen fx && memz q seen) = false ->
+  parents_loop fx t g gb c (S f) seen (Some (q, sq)) acc =
+  match parent fx (if memz q gb then remove_pid q t else t) g c (obj_of (q, sq)) with
+  | Val nxt => parents_loop fx t g gb c f (q :: seen) nxt (acc ++ [q])
+  | Exc NoSuchProcess => if fx_parents_nsp fx then Val (Some (acc ++ [q])) else Exc NoSuchProcess
+  | Exc e => Exc e
+  | OutOfModel => OutOfModel
+  end.
+Proof. intros fx t g gb c f seen q sq acc G. cbn [parents_loop fst]. rewrite G. reflexivity. Qed.
 
-Lemma loop_zero : forall fx t c seen q sq acc, (fx_parents_seen fx && memz q seen) = false ->
-  parents_loop fx t c O seen (Some (q, sq)) acc = Val None.
-Proof. intros fx t c seen q sq acc G. cbn [parents_loop fst]. rewrite G. reflexivity. Qed.
+Lemma loop_zero : forall fx t g gb c seen q sq acc, (fx_parents_seen fx && memz q seen) = false ->
+  parents_loop fx t g gb c O seen (Some (q, sq)) acc = Val None.
+Proof. intros fx t g gb c seen q sq acc G. cbn [parents_loop fst]. rewrite G. reflexivity. Qed.
 
 (* k-fold parent: one more step at the far end *)
 Lemma up_snoc : forall t k x q q', up t k x = Some q -> spec_parent_of t q = Some q' -> up t (S k) x = Some q'.
@@ -164,19 +169,20 @@ Section Parents.
 
   Lemma loop_step : forall f seen q sq e acc, lookup t q = Some e -> kp_start e = sq ->
     (fx_parents_seen fx && memz q seen) = false ->
-    parents_loop fx t c (S f) seen (Some (q, sq)) acc =
-    parents_loop fx t c f (q :: seen) (spec_parent t q sq) (acc ++ [q]).
+    parents_loop fx t [] [] c (S f) seen (Some (q, sq)) acc =
+    parents_loop fx t [] [] c f (q :: seen) (spec_parent t q sq) (acc ++ [q]).
   Proof.
-    intros f seen q sq e acc L S G. rewrite (loop_unfold fx t c f seen q sq acc G).
+    intros f seen q sq e acc L S G. rewrite (loop_unfold fx t [] [] c f seen q sq acc G).
+    cbn [memz existsb].
     pose proof (parent_spec_fx fx t c (obj_of (q, sq)) W (obj_alive t q sq e L S) F) as P.
-    rewrite P. cbn [obind obj_of o_pid o_ident fst snd]. reflexivity.
+    rewrite P. cbn [obj_of o_pid o_ident fst snd]. reflexivity.
   Qed.
 
   (* never an exception: a list, or fuel exhausted *)
   Lemma loop_total : forall fuel q sq e acc seen,
     lookup t q = Some e -> kp_start e = sq ->
-    parents_loop fx t c fuel seen (Some (q, sq)) acc = Val None \/
-    exists r, parents_loop fx t c fuel seen (Some (q, sq)) acc = Val (Some r).
+    parents_loop fx t [] [] c fuel seen (Some (q, sq)) acc = Val None \/
+    exists r, parents_loop fx t [] [] c fuel seen (Some (q, sq)) acc = Val (Some r).
   Proof.
     induction fuel as [|f IH]; intros q sq e acc seen L S;
       destruct (fx_parents_seen fx && memz q seen) eqn:G.
@@ -193,7 +199,7 @@ Section Parents.
   Lemma loop_complete : forall l q sq e acc seen fuel, chain t q l ->
     lookup t q = Some e -> kp_start e = sq -> (length l < fuel)%nat ->
     (forall x, In x seen -> ~ In x (q :: l)) -> NoDup (q :: l) ->
-    parents_loop fx t c fuel seen (Some (q, sq)) acc = Val (Some (acc ++ q :: l)).
+    parents_loop fx t [] [] c fuel seen (Some (q, sq)) acc = Val (Some (acc ++ q :: l)).
   Proof.
     induction l as [|q' l IH]; intros q sq e acc seen fuel Ch L S B D ND.
     - assert (G : (fx_parents_seen fx && memz q seen) = false).
@@ -222,14 +228,14 @@ Section Parents.
   Lemma loop_sound : acyclic t -> forall fuel q sq e acc seen r,
     lookup t q = Some e -> kp_start e = sq ->
     (forall x, In x seen -> exists k, up t (S k) x = Some q) ->
-    parents_loop fx t c fuel seen (Some (q, sq)) acc = Val (Some r) ->
+    parents_loop fx t [] [] c fuel seen (Some (q, sq)) acc = Val (Some r) ->
     exists l, r = acc ++ q :: l /\ chain t q l.
   Proof.
     intros AC. induction fuel as [|f IH]; intros q sq e acc seen r L St Hs H;
       destruct (fx_parents_seen fx && memz q seen) eqn:G.
     - apply andb_true_iff in G. destruct G as [_ G]. apply memz_In in G.
       destruct (Hs q G) as [k Hk]. exfalso. apply (AC q k Hk).
-    - rewrite (loop_zero fx t c seen q sq acc G) in H. discriminate.
+    - rewrite (loop_zero fx t [] [] c seen q sq acc G) in H. discriminate.
     - apply andb_true_iff in G. destruct G as [_ G]. apply memz_In in G.
       destruct (Hs q G) as [k Hk]. exfalso. apply (AC q k Hk).
     - rewrite (loop_step f seen q sq e acc L St G) in H.
@@ -290,7 +296,7 @@ Qed.
 (* parents() is the chain of parent() up to the root, whenever that chain ends ... *)
 Theorem parents_chain_complete : forall t cache o l fuel, wf_table t = true -> alive_b t o = true ->
   cache_fresh_b t cache = true -> chain t (o_pid o) l -> (length l <= fuel)%nat ->
-  parents as_is fuel t cache o = Val (Some l).
+  parents as_is fuel t [] [] cache o = Val (Some l).
 Proof.
   intros t cache o l fuel W A F Ch B. destruct (alive_facts t o A) as [_ [_ [e [L S]]]].
   unfold parents. rewrite (parent_spec t cache o W A F). cbn [obind].
@@ -309,9 +315,9 @@ Proof.
     + intros x [Hx|[]] Hin. subst x. apply Hp. exact Hin.
 Qed.
 
-Lemma parent_some_listed : forall fx t c o q sq, parent fx t c o = Val (Some (q, sq)) -> In q (pids_of t).
+Lemma parent_some_listed : forall fx t g c o q sq, parent fx t g c o = Val (Some (q, sq)) -> In q (pids_of t).
 Proof.
-  intros fx t c o q sq H. unfold parent in H.
+  intros fx t g c o q sq H. unfold parent in H.
   destruct (if fx_parent_reuse fx then raise_if_pid_reused t o else Val tt) as [u| |]; cbn [obind] in H; try discriminate.
   destruct (lowest_pid t c) as [low| |]; cbn [obind] in H; try discriminate.
   destruct (o_pid o =? low); [discriminate|].
@@ -319,7 +325,7 @@ Proof.
   destruct (self_ctime t o) as [ct| |]; cbn [obind] in H; try discriminate.
   unfold proc_new in H. destruct (pp <? 0); [discriminate|]. destruct (PID_MAX <? pp).
   { discriminate. }
-  cbn [memz existsb] in H. destruct (lookup t pp) as [pe|] eqn:Lp; [|discriminate].
+  destruct (memz pp g); [discriminate|]. destruct (lookup t pp) as [pe|] eqn:Lp; [|discriminate].
   destruct (kp_start pe <=? ct); [|discriminate]. injection H as E1 E2. subst q.
   apply lookup_In in Lp. destruct Lp as [He Ep]. rewrite <- Ep. unfold pids_of. apply in_map. exact He.
 Qed.
@@ -334,16 +340,23 @@ Proof.
     + apply IH; [exact Nl|]. intros H. apply Hx. right. exact H.
 Qed.
 
-(* ... it terminates within |t|+1 loop tests on ANY table, any cache, any caller state *)
-Lemma loop_terminates : forall fx t c, fx_parents_seen fx = true ->
+Lemma remove_pid_incl : forall q t x, In x (pids_of (remove_pid q t)) -> In x (pids_of t).
+Proof.
+  intros q t x H. unfold pids_of, remove_pid in *. apply in_map_iff in H. destruct H as [e [E He]].
+  apply filter_In in He. destruct He as [He _]. subst x. apply in_map. exact He.
+Qed.
+
+(* ... it terminates within |t|+1 loop tests on ANY table, any cache, any caller state,
+   whatever vanishes meanwhile *)
+Lemma loop_terminates : forall fx t g gb c, fx_parents_seen fx = true ->
   forall fuel seen cur acc, NoDup acc -> incl acc (pids_of t) -> incl acc seen ->
   (forall ps, cur = Some ps -> In (fst ps) (pids_of t)) ->
   (length t + 1 <= fuel + length acc)%nat ->
-  parents_loop fx t c fuel seen cur acc <> Val None.
+  parents_loop fx t g gb c fuel seen cur acc <> Val None.
 Proof.
-  intros fx t c Fx. induction fuel as [|f IH]; intros seen cur acc ND I1 I2 Hc B.
+  intros fx t g gb c Fx. induction fuel as [|f IH]; intros seen cur acc ND I1 I2 Hc B.
   - destruct cur as [[q sq]|]; [|rewrite loop_none; discriminate].
-    destruct (memz q seen) eqn:M; [rewrite (loop_seen fx t c O seen q sq acc Fx M); discriminate|].
+    destruct (memz q seen) eqn:M; [rewrite (loop_seen fx t g gb c O seen q sq acc Fx M); discriminate|].
     exfalso. apply memz_false in M.
     assert (Hq : ~ In q acc) by (intros H; apply M; apply I2; exact H).
     pose proof (@NoDup_incl_length Z (acc ++ [q]) (pids_of t) (NoDup_snoc acc q ND Hq)) as Len.
@@ -352,41 +365,43 @@ Proof.
     apply Len. intros x Hx. apply in_app_or in Hx. destruct Hx as [Hx|[Hx|[]]]; [apply I1; exact Hx|].
     subst x. apply (Hc (q, sq) eq_refl).
   - destruct cur as [[q sq]|]; [|rewrite loop_none; discriminate].
-    destruct (memz q seen) eqn:M; [rewrite (loop_seen fx t c (S f) seen q sq acc Fx M); discriminate|].
-    rewrite (loop_unfold fx t c f seen q sq acc); [|rewrite M; apply andb_false_r].
+    destruct (memz q seen) eqn:M; [rewrite (loop_seen fx t g gb c (S f) seen q sq acc Fx M); discriminate|].
+    rewrite (loop_unfold fx t g gb c f seen q sq acc); [|rewrite M; apply andb_false_r].
     apply memz_false in M.
     assert (Hq : ~ In q acc) by (intros H; apply M; apply I2; exact H).
-    destruct (parent fx t c (obj_of (q, sq))) as [nxt| |] eqn:P; cbn [obind]; try discriminate.
+    destruct (parent fx (if memz q gb then remove_pid q t else t) g c (obj_of (q, sq))) as [nxt|e|] eqn:P;
+      [|destruct e; try discriminate; destruct (fx_parents_nsp fx); discriminate | discriminate].
     apply IH.
     + apply NoDup_snoc; assumption.
     + intros x Hx. apply in_app_or in Hx. destruct Hx as [Hx|[Hx|[]]]; [apply I1; exact Hx|].
       subst x. apply (Hc (q, sq) eq_refl).
     + intros x Hx. apply in_app_or in Hx. destruct Hx as [Hx|[Hx|[]]]; [right; apply I2; exact Hx|].
       left. exact Hx.
-    + intros [q2 s2] E. subst nxt. cbn [fst]. apply (parent_some_listed fx t c _ q2 s2 P).
+    + intros [q2 s2] E. subst nxt. cbn [fst]. apply parent_some_listed in P.
+      destruct (memz q gb); [apply (remove_pid_incl q t q2 P) | exact P].
     + rewrite app_length. cbn [length]. lia.
 Qed.
 
-Theorem parents_terminates : forall fx t cache o, fx_parents_seen fx = true ->
-  parents fx (S (length t)) t cache o <> Val None.
+Theorem parents_terminates : forall fx t gone goneb cache o, fx_parents_seen fx = true ->
+  parents fx (S (length t)) t gone goneb cache o <> Val None.
 Proof.
-  intros fx t cache o Fx. unfold parents.
-  destruct (parent fx t cache o) as [first| |] eqn:P; cbn [obind]; try discriminate.
-  apply (loop_terminates fx t _ Fx).
+  intros fx t gone goneb cache o Fx. unfold parents.
+  destruct (parent fx t gone cache o) as [first| |] eqn:P; cbn [obind]; try discriminate.
+  apply (loop_terminates fx t gone goneb _ Fx).
   - constructor.
   - intros x [].
   - intros x [].
-  - intros [q sq] E. subst first. cbn [fst]. apply (parent_some_listed fx t cache o q sq P).
+  - intros [q sq] E. subst first. cbn [fst]. apply (parent_some_listed fx t gone cache o q sq P).
   - cbn [length]. lia.
 Qed.
 
 (* ... and on a table without cyclic parent links it returns exactly the chain up to the root *)
 Theorem parents_acyclic_chain : forall t cache o, wf_table t = true -> alive_b t o = true ->
   cache_fresh_b t cache = true -> acyclic t ->
-  exists l, parents as_is (S (length t)) t cache o = Val (Some l) /\ chain t (o_pid o) l.
+  exists l, parents as_is (S (length t)) t [] [] cache o = Val (Some l) /\ chain t (o_pid o) l.
 Proof.
   intros t cache o W A F AC. destruct (alive_facts t o A) as [_ [_ [e [L St]]]].
-  pose proof (parents_terminates as_is t cache o eq_refl) as T.
+  pose proof (parents_terminates as_is t [] [] cache o eq_refl) as T.
   unfold parents in *. rewrite (parent_spec t cache o W A F) in *. cbn [obind] in *.
   pose proof (cache_after_fresh t cache o A F) as F'.
   destruct (spec_parent t (o_pid o) (o_ident o)) as [[q2 s2]|] eqn:SP.
@@ -404,9 +419,9 @@ Qed.
 (* never an exception for a live caller *)
 Theorem parents_total : forall t cache o, wf_table t = true -> alive_b t o = true ->
   cache_fresh_b t cache = true ->
-  exists l, parents as_is (S (length t)) t cache o = Val (Some l).
+  exists l, parents as_is (S (length t)) t [] [] cache o = Val (Some l).
 Proof.
-  intros t cache o W A F. pose proof (parents_terminates as_is t cache o eq_refl) as T.
+  intros t cache o W A F. pose proof (parents_terminates as_is t [] [] cache o eq_refl) as T.
   unfold parents in *. rewrite (parent_spec t cache o W A F) in *. cbn [obind] in *.
   pose proof (cache_after_fresh t cache o A F) as F'.
   destruct (spec_parent t (o_pid o) (o_ident o)) as [[q2 s2]|] eqn:SP.
@@ -419,21 +434,21 @@ Qed.
 (* whatever the links are, the result is the chain of parent() cut before the first repeat *)
 Lemma loop_cut : forall t c, wf_table t = true -> cache_fresh_b t c = true ->
   forall fuel seen p ep acc r, lookup t p = Some ep ->
-  parents_loop as_is t c fuel seen (spec_parent t p (kp_start ep)) acc = Val (Some r) ->
+  parents_loop as_is t [] [] c fuel seen (spec_parent t p (kp_start ep)) acc = Val (Some r) ->
   exists l, r = acc ++ l /\ chain_cut t seen p l.
 Proof.
   intros t c W F. induction fuel as [|f IH]; intros seen p ep acc r Lp H;
     destruct (spec_parent t p (kp_start ep)) as [[q sq]|] eqn:SP.
   - assert (Pq : spec_parent_of t p = Some q) by (rewrite (spec_parent_of_eq t p _ ep Lp eq_refl), SP; reflexivity).
     destruct (memz q seen) eqn:M.
-    + rewrite (loop_seen as_is t c O seen q sq acc eq_refl M) in H. injection H as Hr. subst r.
+    + rewrite (loop_seen as_is t [] [] c O seen q sq acc eq_refl M) in H. injection H as Hr. subst r.
       exists []. split; [symmetry; apply app_nil_r|]. apply memz_In in M. apply (cut_seen t seen p q Pq M).
-    + rewrite (loop_zero as_is t c seen q sq acc) in H; [discriminate | cbn [fx_parents_seen as_is andb]; exact M].
+    + rewrite (loop_zero as_is t [] [] c seen q sq acc) in H; [discriminate | cbn [fx_parents_seen as_is andb]; exact M].
   - rewrite loop_none in H. injection H as Hr. subst r. exists []. split; [symmetry; apply app_nil_r|].
     apply cut_root. rewrite (spec_parent_of_eq t p _ ep Lp eq_refl), SP. reflexivity.
   - assert (Pq : spec_parent_of t p = Some q) by (rewrite (spec_parent_of_eq t p _ ep Lp eq_refl), SP; reflexivity).
     destruct (memz q seen) eqn:M.
-    + rewrite (loop_seen as_is t c (S f) seen q sq acc eq_refl M) in H. injection H as Hr. subst r.
+    + rewrite (loop_seen as_is t [] [] c (S f) seen q sq acc eq_refl M) in H. injection H as Hr. subst r.
       exists []. split; [symmetry; apply app_nil_r|]. apply memz_In in M. apply (cut_seen t seen p q Pq M).
     + destruct (spec_parent_listed _ _ _ _ _ SP) as [e' [L' S']].
       rewrite (loop_step as_is t c W F f seen q sq e' acc L' S') in H; [|cbn [fx_parents_seen as_is andb]; exact M].
@@ -446,7 +461,7 @@ Qed.
 
 Theorem parents_cut : forall t cache o, wf_table t = true -> alive_b t o = true ->
   cache_fresh_b t cache = true ->
-  exists l, parents as_is (S (length t)) t cache o = Val (Some l) /\ chain_cut t [o_pid o] (o_pid o) l.
+  exists l, parents as_is (S (length t)) t [] [] cache o = Val (Some l) /\ chain_cut t [o_pid o] (o_pid o) l.
 Proof.
   intros t cache o W A F. destruct (parents_total t cache o W A F) as [l Hl]. exists l. split; [exact Hl|].
   destruct (alive_facts t o A) as [_ [_ [e [L St]]]].
@@ -491,7 +506,7 @@ Definition tree4 : table := [ {| kp_pid := 1; kp_ppid := 0; kp_start := 1 |};
                               {| kp_pid := 9; kp_ppid := 8; kp_start := 41 |} ].
 Definition o9 : pobj := {| o_pid := 9; o_ident := 41; o_ctime := None |}.
 Example tree4_hyps : wf_table tree4 = true /\ alive_b tree4 o9 = true /\ cache_fresh_b tree4 None = true /\
-  acyclic tree4 /\ parents as_is 5 tree4 None o9 = Val (Some [8; 5; 1]).
+  acyclic tree4 /\ parents as_is 5 tree4 [] [] None o9 = Val (Some [8; 5; 1]).
 Proof.
   split; [reflexivity|]. split; [reflexivity|]. split; [reflexivity|].
   split; [apply strictly_older_acyclic; reflexivity | vm_compute; reflexivity].
@@ -502,7 +517,7 @@ Definition loop17 : table := [ {| kp_pid := 1; kp_ppid := 0; kp_start := 1 |};
                                {| kp_pid := 7; kp_ppid := 7; kp_start := 50 |} ].
 
 Lemma loop17_spin : forall fuel seen acc,
-  parents_loop before_fixes loop17 (Some 1) fuel seen (Some (7, 50)) acc = Val None.
+  parents_loop before_fixes loop17 [] [] (Some 1) fuel seen (Some (7, 50)) acc = Val None.
 Proof.
   induction fuel as [|f IH]; intros seen acc; [reflexivity|].
   rewrite (loop_step before_fixes loop17 (Some 1) eq_refl eq_refl f seen 7 50
@@ -512,12 +527,12 @@ Qed.
 
 Theorem parents_old_nonterminating_refuted :
   exists t o, wf_table t = true /\ alive_b t o = true /\
-              forall fuel, parents before_fixes fuel t None o = Val None.
+              forall fuel, parents before_fixes fuel t [] [] None o = Val None.
 Proof.
   exists loop17, o7. split; [reflexivity|]. split; [reflexivity|]. intros fuel.
-  unfold parents. change (parent before_fixes loop17 None o7) with (Val (A := option (Z * Z)) (Some (7, 50))).
+  unfold parents. change (parent before_fixes loop17 [] None o7) with (Val (A := option (Z * Z)) (Some (7, 50))).
   cbn [obind]. change (cache_after loop17 None) with (Some 1). apply loop17_spin.
 Qed.
 
-Example loop17_now : parents as_is 3 loop17 None o7 = Val (Some []).
+Example loop17_now : parents as_is 3 loop17 [] [] None o7 = Val (Some []).
 Proof. vm_compute. reflexivity. Qed.
